@@ -11,12 +11,14 @@ PLAN = dict(
     functions_under_contract=['subscribe/layered.rs: Layered::new (flags), pick_interest, pick_level_hint', 'filter/subscriber_filters/combinator.rs: And/Or/Not {enabled, callsite_enabled, max_level_hint, event_enabled}', 'filter/subscriber_filters/mod.rs: impl Filter for LevelFilter, Filtered::max_level_hint', 'filter/filter_fn.rs: FilterFn, DynFilterFn summaries', 'subscribe/mod.rs: Vec<S>::{register_callsite,max_level_hint}, and_then, with_collector'],
     trusted_base=["Kani 0.68 / CBMC 6.11 / CaDiCaL; Kani's std build (nightly-2026-08-21), not the repo toolchain's", 'core::fmt::Formatter::pad stubbed to Ok(()) with -Z stubbing (panic-message formatting on infeasible error branches; no harness that uses it reads formatted text)', 'Pool::clear stub'],
     assumptions=["the receive-semantics oracle (ghost g, r; need = min(g_o, g_i, max(r_o, r_i))) is my formalisation of 'what any of its layers would receive'; it is stated in DESIGN.md section 4 so it can be challenged", 'structural induction over And/Or/Not expressions is mechanised in Verus (lemma_c08.verus.rs) over the node formulas that Kani checks the real combinators against; for Layered stacks the induction over nodes is the stated meta-argument'],
-    not_covered=['EnvFilter and Targets leaves (regex / directive sets: C11 covers the static directive order)', 'reload::Subscriber summaries (pass-through cells are C09)'],
+    not_covered=['the EnvFilter leaf (regex, dynamic directives); the Targets leaf is bounded: two directives on one target, one of them naming a field (C11 covers the static directive order)', 'reload::Subscriber summaries (pass-through cells are C09)'],
     verus=[dict(name="structural", builder="build_structural", obligations=["structural", "statement"])],
     kani=[dict(
         crate="tracing-subscriber", tls_shim_crates=["tracing-core", "tracing-subscriber"], once_cell_stub=True,
         modules=[dict(name="__verif_c08", attach="inline", file=LAY, modpath="subscribe::layered",
-                      files=["../common/sub_prelude.rs", "summaries.kani.rs"])],
+                      files=["../common/sub_prelude.rs", "summaries.kani.rs"]),
+                 dict(name="__verif_c08t", attach="inline", file="tracing-subscriber/src/filter/targets.rs", modpath="filter::targets",
+                      files=["../common/sub_prelude.rs", "targets_leaf.kani.rs"])],
         append=_m.SUB_APPENDS,
     )],
     manifest=dict(technique='per-node preservation obligations on the real combinators and Layered::{new,pick_interest,pick_level_hint} with symbolic sound parts and a ghost receive-semantics oracle (Kani, loop-free)',
